@@ -9,6 +9,7 @@ import (
 	"strconv"
 	"strings"
 
+	"github.com/NethermindEth/juno/consensus/propeller"
 	"github.com/NethermindEth/juno/consensus/propeller/merkle"
 	"verif/harness/lib"
 )
@@ -76,7 +77,11 @@ func realVerify(proof []hash, root hash, leaf []byte, index uint32) (bool, error
 
 func merkleCase(h *hctx, leaves [][]byte, r *lib.RNG, tamper bool) {
 	seedForReplay := r.Uint64() >> 12
-	r = lib.NewRNG(seedForReplay)
+	h.guard("merkle", map[string]any{"kind": "merkle", "leaves": hexList(leaves), "rng": seedForReplay}, func() { merkleCase0(h, leaves, seedForReplay, tamper) })
+}
+
+func merkleCase0(h *hctx, leaves [][]byte, seedForReplay uint64, tamper bool) {
+	r := lib.NewRNG(seedForReplay)
 	rp := map[string]any{"kind": "merkle", "leaves": hexList(leaves), "rng": seedForReplay}
 	n := len(leaves)
 	h.res.Case("merkle/"+hexList(leaves), n >= 2)
@@ -255,7 +260,37 @@ func genLeaves(r *lib.RNG, n int) [][]byte {
 	return leaves
 }
 
+// marshalCase: ShardData.MarshalProto (the validator's Merkle leaf) vs the model's protobuf bytes.
+func marshalCase(h *hctx, shards [][]byte) {
+	sd := make(propeller.ShardData, len(shards))
+	for i, s := range shards {
+		sd[i] = s
+	}
+	var out []byte
+	err, panicked, _ := lib.Try(func() error { out = sd.MarshalProto(); return nil })
+	if panicked {
+		h.violate("marshal-proto-panics", fmt.Sprintf("ShardData.MarshalProto of %d shards: %v", len(shards), err), map[string]any{"kind": "marshal", "shards": hexList(shards)})
+		return
+	}
+	h.res.Case("marshal/"+hexList(shards), len(shards) > 0)
+	h.res.Hit(fmt.Sprintf("marshal:shards=%d", len(shards)))
+	h.check("marshal-proto", len(shards), "marshal "+hexList(shards), hx(out), false)
+}
+
 func secMerkle(h *hctx, r *lib.RNG) {
+	marshalCase(h, nil)
+	for _, l := range []int{0, 1, 2, 126, 127, 128, 129, 300, 16383, 16384} {
+		marshalCase(h, [][]byte{genMsg(r, l)})
+		marshalCase(h, [][]byte{genMsg(r, l), {}, genMsg(r, 3)})
+	}
+	for i := 0; i < h.f.Scale(60, 600); i++ {
+		n := r.Intn(4)
+		sh := make([][]byte, n)
+		for j := range sh {
+			sh[j] = r.Bytes(lib.Pick(r, []int{0, 0, 1, 5, 63, 64, 127, 128, 200}))
+		}
+		marshalCase(h, sh)
+	}
 	for n := 0; n <= 70; n++ {
 		model := h.ask("npow2 " + strconv.Itoa(n))
 		// nextPowerOfTwo is unexported: observed through the proof length of an n-leaf tree
